@@ -390,13 +390,17 @@ func parseProposalAnswer(str string, props []*Proposal, l *log.Logger) error {
 			}
 			prop.answer = Defer
 		case 'A', 'a', '!':
-			idx := strings.LastIndexAny(str, "0123456789")
-			if idx < 0 {
+			// The offset is the run of digits following the answer character.
+			idx := 0
+			for idx < len(str) && str[idx] >= '0' && str[idx] <= '9' {
+				idx++
+			}
+			if idx == 0 {
 				return errors.New("Got offset request without offset index")
 			}
 			prop.answer = Accept // Offset is not implemented as a ProposalAnswer
-			prop.offset, _ = strconv.Atoi(str[:idx+1])
-			str = str[idx+1:]
+			prop.offset, _ = strconv.Atoi(str[:idx])
+			str = str[idx:]
 
 			if prop.offset > ProtocolOffsetSizeLimit { // RMS Express does this (in Winmor P2P for sure)
 				prop.offset = 0
@@ -441,6 +445,10 @@ func (s *Session) writeCompressed(rw io.ReadWriter, p *Proposal) (err error) {
 
 	if p.compressedSize < 6 { // lzhuf's smallest valid length (empty)
 		return errors.New(`Invalid compressed data`)
+	}
+
+	if p.offset < 0 || p.offset > len(p.compressedData) {
+		return fmt.Errorf("Invalid offset (%d) requested for message of %d bytes", p.offset, len(p.compressedData))
 	}
 
 	buffer := bytes.NewBuffer(p.compressedData[p.offset:])
